@@ -7,19 +7,23 @@ HERE = os.path.dirname(os.path.dirname(os.path.abspath(__file__)))
 
 def verify(pid, n):
   src = f'/tmp/seed/{pid}/out'
+  second_round = pid.endswith('b')
+  pid = pid[:3]
+  sn = int(n) + (2 if second_round else 0)
   patch, demo, notes = (os.path.join(src, f) for f in (f'patch{n}.diff', f'demo{n}.py', f'notes{n}.md'))
   r = subprocess.run([os.path.join(HERE, 'tools', 'verify_seed.py'), patch, demo], capture_output=True, text=True)
   print(r.stdout[-2000:])
   if r.returncode != 0:
     print('not confirmed; nothing stored'); return 1
-  d = os.path.join(HERE, 'seeded', f'{pid}-s{n}')
+  d = os.path.join(HERE, 'seeded', f'{pid}-s{sn}')
   os.makedirs(d, exist_ok=True)
   shutil.copy(patch, os.path.join(d, 'patch.diff'))
   shutil.copy(demo, os.path.join(d, 'demo.py'))
   note = open(notes).read() if os.path.exists(notes) else ''
   files = sorted(set(re.findall(r'^\+\+\+ b/(\S+)', open(patch).read(), flags=re.M)))
   meta = {
-      'property': pid, 'source': 'independent sub-agent given only the property text and a scratch worktree',
+      'property': pid, 'source': 'independent sub-agent given only the property text and a scratch worktree'
+                                 + (' (second round: asked for cooperating-site / multi-step / feature-combination / subtle-accuracy changes, told which first-round changes were taken)' if second_round else ''),
       'files_changed': files, 'needs_to_manifest_and_why': note,
       'confirmed': {'tool': 'tools/verify_seed.py', 'log': r.stdout.strip().splitlines(),
                     'what_ran': ['demo.py on a clean scratch worktree of /repo HEAD (exit 0)',
